@@ -189,6 +189,7 @@ def contexts(tier):
            # statement heads (multi-token hole classes), static assertions, declarations sharing a specifier list
            "?K": ["1", "07", "0", "0x1F", "0xFuL", "0b1", "2u", "1.0", "1.0f", "2e3F", "0x1p0", "'c'", '"s"'], "?F": ["x", "p1", "e1"],
            "?G": ["-", "+", "&", "*", "--", "++", "!", "~"], "?B": ["-", "+", "&", "*", "&&", "/"],
+           "?Y": ["int T", "T x", "void", "int ( T )", "T T", "int ( * T ) ( T x )", "int x [ sizeof ( T ) ]"],
            "?H": ["if ( x )", "else", "while ( x )", "for ( ; ; )", "for ( ( { 1 ; } ) ; ( { 1 ; } ) ; ( { 1 ; } ) )", "do", "x :", "T :", "case 1 :", "default :", "switch ( x )", ""],
            "?A": ['_Static_assert ( 1 , "s" ) ;', "_Static_assert ( 1 ) ;", 'struct { _Static_assert ( 1 , L"w" "s" ) ; int x ; } y ;', "x ;", "int y ;", ";", "{ }"],
            "?D": ["T T , x ;", "T x , T ;", "T T , * x , y [ sizeof ( T ) ] ;", "T * T , x ;", "typedef T T , x ;", "T x = sizeof ( T ) , T ;", "struct x { T T ; T y ; } T , y ;", "enum { y , T } x ; T y ;"],
@@ -209,6 +210,8 @@ def contexts(tier):
         (c05.FN, "?D T ;", ["}"]),
         (c05.FN, "{ ?D } T * x ;", ["}"]),
         (c02.PRE, 'char x [ ] = "s" L"w" , y [ ] = u8"s" "s" "s" ;', []),
+        # definitions without declaration specifiers (implicit int, accepted by pycparser): printed with 'int', must re-parse alike
+        (c02.PRE, "y ( ?Y ) { T * x ; ( T ) - x ; sizeof ( T ) ; } static x ( ?Y , int y ) { T * y ; }", []),
         # tokens that must not be glued together by the generator: constant . member, - -x, + +x, & &x, x - -y, x + +y, x & &y
         (c05.FN, "x = ?K . ?F + ?K . ?F . ?F ;", ["}"]),
         (c05.FN, "x = ?G ?G ?V ?B ?G ?G ?V ;", ["}"]),
